@@ -700,41 +700,47 @@ fn pick<'a>(cs: &mut Cs, v: &'a [&'static MethodMeta]) -> &'static MethodMeta {
 // ---------------------------------------------------------------------------
 // C12: arbitrary histories
 
+/// one call of the C12 mix
+fn c12_step(cs: &mut Cs, it: &mut Interp, p: &Pools) -> R {
+    match cs.below(32) {
+        0..=3 => it.call(cs, method("begin_function"))?,
+        4..=6 => it.call(cs, method("end_function"))?,
+        7..=10 => it.call(cs, method("begin_block"))?,
+        11..=13 => { let mm = pick(cs, &p.term); it.call(cs, mm)? },
+        14..=19 => { let mm = pick(cs, &p.block); it.call(cs, mm)? },
+        20 => it.call(cs, method("function_parameter"))?,
+        21 | 22 => { let mm = pick(cs, &p.module_level); it.call(cs, mm)? },
+        23 => { let mm = pick(cs, &p.types); it.call(cs, mm)? },
+        24 => { let mm = pick(cs, &p.block_or_global); it.call(cs, mm)? },
+        25 | 26 => {
+            let nf = it.b.as_ref().unwrap().module_ref().functions.len();
+            let idx = if cs.below(4) == 0 { None } else { Some(cs.below(nf + 2)) };
+            it.select_function(idx)?
+        }
+        27 | 28 => {
+            let nb = it
+                .selection()
+                .0
+                .map(|f| it.b.as_ref().unwrap().module_ref().functions[f].blocks.len())
+                .unwrap_or(0);
+            let idx = if cs.below(4) == 0 { None } else { Some(cs.below(nb + 2)) };
+            it.select_block(idx)?
+        }
+        29 | 30 => it.pop_instruction()?,
+        _ => {
+            it.alloc_id()?;
+        }
+    }
+    Ok(())
+}
+
 fn sub_c12_histories(input: &[u8], st: &mut Stats) -> R {
     let mut cs = Cs::new(input);
     let p = pools();
     let mut it = Interp::new();
     let n = cs.below(61);
     for _ in 0..n {
-        match cs.below(32) {
-            0..=3 => it.call(&mut cs, method("begin_function"))?,
-            4..=6 => it.call(&mut cs, method("end_function"))?,
-            7..=10 => it.call(&mut cs, method("begin_block"))?,
-            11..=13 => { let mm = pick(&mut cs, &p.term); it.call(&mut cs, mm)? },
-            14..=19 => { let mm = pick(&mut cs, &p.block); it.call(&mut cs, mm)? },
-            20 => it.call(&mut cs, method("function_parameter"))?,
-            21 | 22 => { let mm = pick(&mut cs, &p.module_level); it.call(&mut cs, mm)? },
-            23 => { let mm = pick(&mut cs, &p.types); it.call(&mut cs, mm)? },
-            24 => { let mm = pick(&mut cs, &p.block_or_global); it.call(&mut cs, mm)? },
-            25 | 26 => {
-                let nf = it.b.as_ref().unwrap().module_ref().functions.len();
-                let idx = if cs.below(4) == 0 { None } else { Some(cs.below(nf + 2)) };
-                it.select_function(idx)?
-            }
-            27 | 28 => {
-                let nb = it
-                    .selection()
-                    .0
-                    .map(|f| it.b.as_ref().unwrap().module_ref().functions[f].blocks.len())
-                    .unwrap_or(0);
-                let idx = if cs.below(4) == 0 { None } else { Some(cs.below(nb + 2)) };
-                it.select_block(idx)?
-            }
-            29 | 30 => it.pop_instruction()?,
-            _ => {
-                it.alloc_id()?;
-            }
-        }
+        c12_step(&mut cs, &mut it, p)?;
     }
     let nfun = it.b.as_ref().unwrap().module_ref().functions.len();
     for e in &it.errors_seen {
@@ -748,6 +754,67 @@ fn sub_c12_histories(input: &[u8], st: &mut Stats) -> R {
     }
     st.add("builder_calls", it.ncalls as u64);
     st.sample(|| it.render());
+    Ok(())
+}
+
+/// medium-sized histories (260-1160 calls) dominated by one kind of call, so that a single
+/// function collects hundreds of parameters / blocks, a block hundreds of instructions, a
+/// module hundreds of functions, types or module-level instructions
+fn sub_c12_long(input: &[u8], st: &mut Stats) -> R {
+    let mut cs = Cs::new(input);
+    let p = pools();
+    let mut it = Interp::new();
+    let n = 260 + cs.below(900);
+    let dom = cs.below(7);
+    it.call(&mut cs, method("begin_function"))?;
+    if dom == 1 {
+        it.call(&mut cs, method("begin_block"))?;
+    }
+    for _ in 0..n {
+        if cs.below(12) == 0 {
+            c12_step(&mut cs, &mut it, p)?;
+            continue;
+        }
+        match dom {
+            0 => it.call(&mut cs, method("function_parameter"))?,
+            1 => {
+                let mm = pick(&mut cs, &p.block);
+                it.call(&mut cs, mm)?
+            }
+            2 => {
+                if it.selection().1.is_none() {
+                    it.call(&mut cs, method("begin_block"))?
+                } else {
+                    let mm = pick(&mut cs, &p.term);
+                    it.call(&mut cs, mm)?
+                }
+            }
+            3 => {
+                if it.selection().0.is_none() {
+                    it.call(&mut cs, method("begin_function"))?
+                } else {
+                    it.call(&mut cs, method("end_function"))?
+                }
+            }
+            4 => {
+                let mm = pick(&mut cs, &p.module_level);
+                it.call(&mut cs, mm)?
+            }
+            5 => {
+                let mm = pick(&mut cs, &p.types);
+                it.call(&mut cs, mm)?
+            }
+            _ => {
+                it.alloc_id()?;
+            }
+        }
+    }
+    for e in &it.errors_seen {
+        st.count(&format!("error_{}", e));
+    }
+    st.count(&format!("long_run_dominant_{}", ["function_parameter", "block_instruction", "blocks", "functions", "module_level", "types", "id"][dom]));
+    st.add("builder_calls", it.ncalls as u64);
+    st.nontrivial(hash_str(&it.render()));
     Ok(())
 }
 
@@ -799,12 +866,14 @@ fn sub_c12_fixed(input: &[u8], st: &mut Stats) -> R {
 pub const C12_SUBS: &[Sub] = &[
     Sub { name: "fixed-histories", f: sub_c12_fixed },
     Sub { name: "histories", f: sub_c12_histories },
+    Sub { name: "long-runs", f: sub_c12_long },
 ];
 
 pub fn c12_run(ctx: &Ctx) {
     run_regress(ctx, C12_SUBS);
     drive_enum(ctx, &C12_SUBS[0], 3);
     drive_random(ctx, &C12_SUBS[1], ctx.n(30_000, 15_000_000), 1500);
+    drive_random(ctx, &C12_SUBS[2], ctx.n(250, 100_000), 24_000);
     if !ctx.quick() && !ctx.failed() {
         crate::fuzzing::drive_fuzz(ctx, "builder", 200_000);
     }
@@ -814,7 +883,7 @@ pub fn c12_finish(ctx: &Ctx) -> i32 {
     crate::engine::finish(
         ctx,
         Finish {
-            rule: "cases: call histories of 0-60 calls over begin/end function, begin block, every terminator method, every block-instruction method (append and insert_* with offsets within the selected block), function_parameter, module-level and type methods, variable/undef/line/no_line, select_function/select_block with in- and out-of-range indices, pop_instruction, id(); arguments planned from the grammar. Oracle (model R4): catch_unwind around every call; selection observed before/after every call and checked against the validity invariant; success/failure of each call decided by the observed pre-state as the statement says; after every call a full structural comparison of module_ref() with the model (Err => unchanged, Ok => exactly the modelled insertion/removal). non-trivial = history with a selection call or an error return and >= 2 functions; distinct = hash of the rendered history.",
+            rule: "cases: call histories of 0-60 calls (and, in `long-runs`, 260-1160 calls dominated by one kind of call: parameters of one function, instructions of one block, blocks, functions, module-level instructions, types, ids) over begin/end function, begin block, every terminator method, every block-instruction method (append and insert_* with offsets within the selected block), function_parameter, module-level and type methods, variable/undef/line/no_line, select_function/select_block with in- and out-of-range indices, pop_instruction, id(); arguments planned from the grammar. Oracle (model R4): catch_unwind around every call; selection observed before/after every call and checked against the validity invariant; success/failure of each call decided by the observed pre-state as the statement says; after every call a full structural comparison of module_ref() with the model (Err => unchanged, Ok => exactly the modelled insertion/removal). non-trivial = history with a selection call or an error return and >= 2 functions; distinct = hash of the rendered history.",
             assumptions: vec!["InsertPoint offsets beyond the selected block's length are outside the stated precondition and never generated".into()],
             trusted_base: vec!["builder model R4".into(), "generated call sites (build.rs, syn)".into(), "golden grammar".into()],
         },
